@@ -25,6 +25,46 @@ fn forward(req: &[u8], peer: SocketAddr, public: SocketAddr, elide: bool, send: 
     Some(out)
 }
 
+// the response side: the same context, after the request went through, edits the backend's response
+fn forward_response(resp: &[u8], peer: SocketAddr, public: SocketAddr) -> Option<Vec<u8>> {
+    let mut pool = Pool::with_capacity(2, 4, 16384);
+    let mut ctx = HttpContext::new(rusty_ulid::Ulid::generate(), rusty_ulid::Ulid::generate(), Protocol::HTTP, public, Some(peer), "SOZUBALANCEID".into(), "Sozu-Id".into(), false, false);
+    let req = b"GET /x HTTP/1.1\r\nHost: a.example\r\n\r\n";
+    let mut rk = kawa::Kawa::new(kawa::Kind::Request, kawa::Buffer::new(pool.checkout()?));
+    rk.storage.space()[..req.len()].copy_from_slice(req);
+    rk.storage.fill(req.len());
+    kawa::h1::parse(&mut rk, &mut ctx);
+    let mut kawa = kawa::Kawa::new(kawa::Kind::Response, kawa::Buffer::new(pool.checkout()?));
+    kawa.storage.space()[..resp.len()].copy_from_slice(resp);
+    kawa.storage.fill(resp.len());
+    kawa::h1::parse(&mut kawa, &mut ctx);
+    if kawa.is_error() { return None; }
+    kawa.prepare(&mut kawa::h1::BlockConverter);
+    let mut out = Vec::new();
+    for block in kawa.out.iter() {
+        match block { kawa::OutBlock::Delimiter => break, kawa::OutBlock::Store(store) => out.extend_from_slice(store.data(kawa.storage.buffer())) }
+    }
+    Some(out)
+}
+
+const RESP_POOL: &[(&str, &str)] = &[("X-R", "1"), ("Set-Cookie", "app=1; Path=/"), ("X-R", "2"), ("Cache-Control", "no-store"), ("Set-Cookie", "other=2"), ("Server", "backend/1.0")];
+
+fn check_response(mask: u32, peer: SocketAddr, public: SocketAddr) -> Result<(), (String, String)> {
+    let chosen: Vec<&(&str, &str)> = RESP_POOL.iter().enumerate().filter(|(i, _)| mask & (1 << i) != 0).map(|(_, h)| h).collect();
+    let mut resp = String::from("HTTP/1.1 200 OK\r\nContent-Length: 2\r\n");
+    for (k, v) in &chosen { resp += &format!("{k}: {v}\r\n"); }
+    resp += "\r\nok";
+    let out = match forward_response(resp.as_bytes(), peer, public) { Some(o) => o, None => return Ok(()) };
+    let h = headers(&out);
+    let input = format!("backend response {resp:?}");
+    let want: Vec<(String, &str)> = chosen.iter().map(|c| (c.0.to_ascii_lowercase(), c.1)).collect();
+    let got: Vec<(String, &str)> = h.iter().filter(|(k, _)| ["x-r", "set-cookie", "cache-control", "server"].contains(&k.as_str())).map(|(k, v)| (k.clone(), v.as_str())).collect();
+    if want != got { return Err((input, format!("response headers changed: backend sent {want:?}, client receives {got:?}; forwarded response: {:?}", String::from_utf8_lossy(&out)))); }
+    if vals(&h, "sozu-id").len() != 1 { return Err((input, format!("exactly one correlation header must be added to the response: {:?}", vals(&h, "sozu-id")))); }
+    if !out.ends_with(b"ok") || vals(&h, "content-length") != vec!["2"] { return Err((input, format!("the body / its length must reach the client intact; forwarded response: {:?}", String::from_utf8_lossy(&out)))); }
+    Ok(())
+}
+
 fn headers(msg: &[u8]) -> Vec<(String, String)> {
     let text = String::from_utf8_lossy(msg);
     text.split("\r\n").skip(1).take_while(|l| !l.is_empty()).filter_map(|l| l.split_once(':').map(|(k, v)| (k.trim().to_ascii_lowercase(), v.trim().to_string()))).collect()
@@ -105,6 +145,13 @@ fn main() {
             }
         }
     }
+    for mask in 0..(1u32 << RESP_POOL.len()) {
+        n += 1;
+        if let Err((i, o)) = check_response(mask, peers[0], public) {
+            let shape = o.split(':').next().unwrap_or("").to_string();
+            if shapes.insert(shape) { failures.push((i, o)); }
+        }
+    }
     let fjson: Vec<String> = failures.iter().map(|(i, o)| format!("{{\"input\": {i:?}, \"observed\": {o:?}}}")).collect();
-    println!("{{\"bound\": \"every subset of {} client header lines x 4 X-Real-IP settings x {} peer address(es), one GET request each, HTTP listener, H1 towards the backend\", \"states\": {n}, \"pairs\": {n}, \"nontrivial_pairs\": {n}, \"failures\": [{}]}}", POOL.len(), peers.len(), fjson.join(", "));
+    println!("{{\"bound\": \"every subset of {} client header lines x 4 X-Real-IP settings x {} peer address(es), one GET request each, HTTP listener, H1 towards the backend; plus every subset of 6 backend response header lines on the way back\", \"states\": {n}, \"pairs\": {n}, \"nontrivial_pairs\": {n}, \"failures\": [{}]}}", POOL.len(), peers.len(), fjson.join(", "));
 }
